@@ -23,18 +23,21 @@ ASSUMPTIONS = [
 NSHARDS = {"quick": 16, "thorough": 16}
 BUDGET_S = {"quick": 20, "thorough": 500}
 FLOORS = {
-    "quick": {"evaluations": 2500, "distinct": 400,
-              "counters": {"outputs_with_entities": 800, "via_macro": 100, "via_setblock": 50,
-                           "via_super_or_self": 100, "via_include": 100, "via_import_macro": 50,
-                           "fragment_through_filter": 30, "plain_tilde_fragment": 30,
+    # quick floors leave room for a ten times slower (heavily loaded) machine
+    "quick": {"evaluations": 2500, "distinct": 250,
+              "counters": {"outputs_with_entities": 300, "via_macro": 100, "via_setblock": 50,
+                           "via_super_or_self": 60, "via_include": 60, "via_import_macro": 50,
+                           "fragment_through_filter": 10, "plain_tilde_fragment": 8,
                            "local_autoescape_block_renders": 500,
-                           "loop_exit_through_inner_autoescape_block": 60}},
+                           "loop_exit_through_inner_autoescape_block": 25,
+                           "evalctx_filter_by_name_via_map": 10}},
     "thorough": {"evaluations": 50000, "distinct": 6000,
                  "counters": {"outputs_with_entities": 16000, "via_macro": 2000, "via_setblock": 1000,
                               "via_super_or_self": 2000, "via_include": 2000, "via_import_macro": 1000,
                               "fragment_through_filter": 600, "plain_tilde_fragment": 600,
                               "local_autoescape_block_renders": 10000,
-                              "loop_exit_through_inner_autoescape_block": 1200}},
+                              "loop_exit_through_inner_autoescape_block": 1200,
+                              "evalctx_filter_by_name_via_map": 400}},
 }
 
 # every value has a raw metacharacter (over-escaping shows) AND entity-like text
@@ -53,7 +56,7 @@ def heat(case, rng):
         r["ls"] = [rng.choice(HOT + ["a"]) for _ in range(rng.randint(0, 3))]
     elif k == "stmt":
         for n in stmtgen.POOL:
-            if rng.random() < 0.4:
+            if rng.random() < 0.7:
                 d[n] = rng.choice(HOT)
     elif k == "inherit":
         d["item"] = rng.choice(HOT)
@@ -227,6 +230,8 @@ def feature_counters(ctx, case):
         ctx.count("fragment_through_filter")
     if " ~ m" in allsrc or " ~ caller(" in allsrc:
         ctx.count("plain_tilde_fragment")
+    if "|map('join'" in allsrc:
+        ctx.count("evalctx_filter_by_name_via_map")
 
 
 def run(ctx):
